@@ -125,7 +125,7 @@ def job_permutation(nsrc, images, compute_permutation):
                bounds=dict(nsrc=nsrc), timeout_s=1500)
 
 
-def job_framewise(images, nsampl, silent_at, window=4, hop=2, nsrc=2):
+def job_framewise(images, nsampl, silent_at, window=4, hop=2, nsrc=2, cp=False):
     ncrit = 4 if images else 3
 
     def build(ctx):
@@ -159,9 +159,11 @@ def job_framewise(images, nsampl, silent_at, window=4, hop=2, nsrc=2):
         fw = getattr(fw, '__wrapped__', fw)
         rin, ein = (S._wrap(ref.copy()), S._wrap(est.copy())) if A.sym else (ref.copy(), est.copy())
         with stubbed([(SEP, name, inner)]):
-            out = fw(rin, ein, window=window, hop=hop, compute_permutation=False)
+            out = fw(rin, ein, window=window, hop=hop, compute_permutation=cp)
         A.require(len(out) == ncrit + 1, '%s_framewise:arity' % name, got=len(out))
         A.observe('nwin', nwin)
+        # every evaluation (the single-window fall-back included) is made with the caller's compute_permutation
+        A.require(all(c[2] is cp or c[2] == cp for c in calls), '%s_framewise:compute_permutation-forwarded' % name, got=[c[2] for c in calls])
         if nwin < 2:
             A.require(len(calls) == 1 and calls[0][0].shape[1] == nsampl, '%s_framewise:short-signal-evaluated-as-one-window' % name)
             return
@@ -194,7 +196,7 @@ def job_framewise(images, nsampl, silent_at, window=4, hop=2, nsrc=2):
                         vals_ok = A.And(vals_ok, A.eq(v, vals[m][j][live.index(k)]))
         A.require(vals_ok, '%s_framewise:per-window-results-copied' % name)
         A.require(nan_ok, '%s_framewise:NaN-in-every-metric-for-silent-windows' % name)
-    return Job('C19', '%s_framewise[nsampl=%d,silent=%s]' % ('bss_eval_images' if images else 'bss_eval_sources', nsampl, silent_at), build, body,
+    return Job('C19', '%s_framewise[nsampl=%d,silent=%s,compute_permutation=%s]' % ('bss_eval_images' if images else 'bss_eval_sources', nsampl, silent_at, cp), build, body,
                funcs=['separation.bss_eval_%s_framewise' % ('images' if images else 'sources'), 'separation._any_source_silent', 'separation.validate'],
                fresh_empty=True, bounds=dict(nsampl=nsampl, window=window, hop=hop))
 
@@ -229,6 +231,9 @@ def jobs(tier):
         js.append(job_permutation(2, images, False))
         for (ns, sil) in [(8, None), (8, ('ref', 0, 1)), (8, ('est', 1, 2)), (6, ('ref', 1, 0)), (4, None)]:
             js.append(job_framewise(images, ns, sil))
+        for (ns, sil) in [(8, None), (4, None), (3, None)]:
+            js.append(job_framewise(images, ns, sil, cp=True))
+        js.append(job_framewise(images, 3, None))
         js.append(job_empty(images, False))
         js.append(job_empty(images, True))
     return js
